@@ -108,6 +108,9 @@ def cases(tier: str, seed: int) -> list[dict]:
         m = W.random_mesh(rng, rng.randint(2, 7), rng.randint(2, 6))
         w = _mesh_world(None, rng.choice(["absent", "implied", "declared", "declared-transposed"]), mesh=m)
         out.append({"src": "rand", "w": w, "events": _events(w, 3)})
+    vias = ["memory", "file", "memory", "dask", "memory", "emsopen", "memory"]      # how the dataset is held (viafile.hold)
+    for k, c in enumerate(out):
+        c["w"] = dict(c["w"], via=vias[k % len(vias)])
     return out
 
 
@@ -118,7 +121,8 @@ def nontrivial(case: dict) -> bool:
 
 def execute(case: dict) -> dict:
     w = case["w"]
-    ds = W.build(w)
+    from .. import viafile
+    ds = viafile.hold_ds(w, W.build(w))
     conv = W.bind(w, ds)
     kind_enum = type(next(iter(conv.grid_kinds)))
     rec = {"tid": case["tid"], "src": case["src"],
@@ -140,3 +144,7 @@ def execute(case: dict) -> dict:
             e["obs"] = outcome(lambda: as_int(conv.ravel_index(arg)))
         rec["events"].append(e)
     return rec
+
+
+from .. import viafile as _viafile  # noqa: E402
+execute = _viafile.closing(execute)
